@@ -627,7 +627,10 @@ class Taint:
             r_t, outp = self.analyze(t, tcfg, chain + (t.sname,))
             if t.sname in self.declass_ret:
                 where = self.declass_ret[t.sname]
-                if where is None or (chain and chain[-1] in where):
+                if callable(where):
+                    if where(fn, ins, t):
+                        r_t = False
+                elif where is None or (chain and chain[-1] in where):
                     r_t = False
             rt = rt or r_t
             for i, rs in enumerate(outp):
